@@ -6,6 +6,7 @@
   CFF / form-factor values.
 -/
 import Gen.BmkSymR
+import Gen.ObsR
 import Proofs.Trig
 
 namespace Gep.R.C07
@@ -167,5 +168,103 @@ theorem pure_BH_no_target_asymmetry (c : Consts) (m : CFFs) (pt : Pt) :
 /-- non-vacuity: the transformations act on concrete data as intended -/
 example (pt : Pt) (h : pt.phi = 1) : (mirror pt).phi = 2 * Real.pi - 1 ∧ (flipPol (flipChg pt)).in1charge = -pt.in1charge := by
   simp [h]
+
+/-! ### the same statements at the level of the observables (Scalar/Obs.lean.in: model of the
+flip-based constructions `_AC`, `_ALU`, `_TSA` of dvcs.py on top of the generated `XS_<Set>`) -/
+
+theorem applyFlip_chg (pt : Pt) : Obs.applyFlip pt { chg := true } = flipChg pt := rfl
+theorem applyFlip_pol (pt : Pt) : Obs.applyFlip pt { pol := true } = flipPol pt := rfl
+theorem applyFlip_none (pt : Pt) : Obs.applyFlip pt {} = pt := rfl
+
+/-- the full cross section of a set is charge independent for vanishing CFFs -/
+theorem XS_flipChg_zeroCFFs (c : Consts) (m : CFFs) (pt : Pt) (tg : Nat) (pol : ℝ) (w : Bool) :
+    XS_BMK c (zeroCFFs m) (flipChg pt) tg pol w = XS_BMK c (zeroCFFs m) pt tg pol w ∧
+    XS_hotfixedBMK c (zeroCFFs m) (flipChg pt) tg pol w = XS_hotfixedBMK c (zeroCFFs m) pt tg pol w ∧
+    XS_BM10ex c (zeroCFFs m) (flipChg pt) tg pol w = XS_BM10ex c (zeroCFFs m) pt tg pol w ∧
+    XS_BM10 c (zeroCFFs m) (flipChg pt) tg pol w = XS_BM10 c (zeroCFFs m) pt tg pol w ∧
+    XS_BM10tw2 c (zeroCFFs m) (flipChg pt) tg pol w = XS_BM10tw2 c (zeroCFFs m) pt tg pol w := by
+  obtain ⟨h1, h2, h3, h4, h5⟩ := no_charge_dependence_without_cffs c m pt tg pol
+  refine ⟨?_, ?_, ?_, ?_, ?_⟩ <;>
+    simp only [XS_BMK, XS_hotfixedBMK, XS_BM10ex, XS_BM10, XS_BM10tw2, h1, h2, h3, h4, h5, bmk_sym]
+
+/-- generic facts about the flip-based observables: a cross section that does not change under the
+    flip has a vanishing asymmetry (whenever the asymmetry is defined at all) -/
+theorem Obs_AC_zero (xs : Obs.XSfun) (pt : Pt) (p2 v : ℝ) (h : xs (flipChg pt) p2 = xs pt p2) :
+    Obs.AC xs pt p2 = some v → v = 0 := by
+  intro hv
+  simp only [Obs.AC, Obs.xsF, applyFlip_chg, applyFlip_none, h, Bool.false_eq_true, if_false] at hv
+  cases hx : xs pt p2 <;> simp [hx] at hv
+  rw [← hv]
+
+theorem Obs_ALU_zero (xs : Obs.XSfun) (pt : Pt) (p2 v : ℝ) (h : xs (flipPol pt) p2 = xs pt p2) :
+    Obs.ALU xs pt p2 = some v → v = 0 := by
+  intro hv
+  simp only [Obs.ALU, Obs.XLU, Obs.XUU, Obs.xsF, applyFlip_pol, applyFlip_none, h, Bool.false_eq_true, if_false] at hv
+  cases hx : xs pt p2 <;> simp [hx] at hv
+  rw [← hv]
+
+theorem Obs_TSA_zero (xs : Obs.XSfun) (pt : Pt) (p2 v : ℝ) (h : xs pt (-p2) = xs pt p2) :
+    Obs.TSA xs pt p2 = some v → v = 0 := by
+  intro hv
+  have hf : Obs.applyFlip pt { tpol := true } = pt := rfl
+  simp only [Obs.TSA, Obs.xsF, applyFlip_none, hf, h, Bool.false_eq_true, if_false, if_true] at hv
+  cases hx : xs pt p2 <;> simp [hx] at hv
+  rw [← hv]
+
+/-- **pure Bethe–Heitler: the beam-charge asymmetry `_AC` is zero** whenever it is defined — every
+    formula set, every target state, weighted or not -/
+theorem pure_BH_AC_zero (c : Consts) (m : CFFs) (pt : Pt) (tg : Nat) (pol : ℝ) (w : Bool) (v : ℝ) :
+    (Obs.AC (fun p q => XS_BMK c (zeroCFFs m) p tg q w) pt pol = some v → v = 0) ∧
+    (Obs.AC (fun p q => XS_hotfixedBMK c (zeroCFFs m) p tg q w) pt pol = some v → v = 0) ∧
+    (Obs.AC (fun p q => XS_BM10ex c (zeroCFFs m) p tg q w) pt pol = some v → v = 0) ∧
+    (Obs.AC (fun p q => XS_BM10 c (zeroCFFs m) p tg q w) pt pol = some v → v = 0) ∧
+    (Obs.AC (fun p q => XS_BM10tw2 c (zeroCFFs m) p tg q w) pt pol = some v → v = 0) := by
+  obtain ⟨h1, h2, h3, h4, h5⟩ := XS_flipChg_zeroCFFs c m pt tg pol w
+  exact ⟨Obs_AC_zero _ pt pol v h1, Obs_AC_zero _ pt pol v h2, Obs_AC_zero _ pt pol v h3,
+    Obs_AC_zero _ pt pol v h4, Obs_AC_zero _ pt pol v h5⟩
+
+/-- pure BH on an unpolarised target does not depend on the beam helicity -/
+theorem XS_flipPol_zeroCFFs_unp (c : Consts) (m : CFFs) (pt : Pt) (pol : ℝ) (w : Bool) :
+    XS_BMK c (zeroCFFs m) (flipPol pt) 0 pol w = XS_BMK c (zeroCFFs m) pt 0 pol w ∧
+    XS_hotfixedBMK c (zeroCFFs m) (flipPol pt) 0 pol w = XS_hotfixedBMK c (zeroCFFs m) pt 0 pol w ∧
+    XS_BM10ex c (zeroCFFs m) (flipPol pt) 0 pol w = XS_BM10ex c (zeroCFFs m) pt 0 pol w ∧
+    XS_BM10 c (zeroCFFs m) (flipPol pt) 0 pol w = XS_BM10 c (zeroCFFs m) pt 0 pol w ∧
+    XS_BM10tw2 c (zeroCFFs m) (flipPol pt) 0 pol w = XS_BM10tw2 c (zeroCFFs m) pt 0 pol w := by
+  refine ⟨?_, ?_, ?_, ?_, ?_⟩ <;>
+    (simp only [XS_BMK, XS_hotfixedBMK, XS_BM10ex, XS_BM10, XS_BM10tw2]; xs_unfold)
+
+/-- **pure Bethe–Heitler: the beam-spin asymmetry `_ALU` (unpolarised target) is zero** whenever defined -/
+theorem pure_BH_ALU_zero (c : Consts) (m : CFFs) (pt : Pt) (pol : ℝ) (w : Bool) (v : ℝ) :
+    (Obs.ALU (fun p q => XS_BMK c (zeroCFFs m) p 0 q w) pt pol = some v → v = 0) ∧
+    (Obs.ALU (fun p q => XS_hotfixedBMK c (zeroCFFs m) p 0 q w) pt pol = some v → v = 0) ∧
+    (Obs.ALU (fun p q => XS_BM10ex c (zeroCFFs m) p 0 q w) pt pol = some v → v = 0) ∧
+    (Obs.ALU (fun p q => XS_BM10 c (zeroCFFs m) p 0 q w) pt pol = some v → v = 0) ∧
+    (Obs.ALU (fun p q => XS_BM10tw2 c (zeroCFFs m) p 0 q w) pt pol = some v → v = 0) := by
+  obtain ⟨h1, h2, h3, h4, h5⟩ := XS_flipPol_zeroCFFs_unp c m pt pol w
+  exact ⟨Obs_ALU_zero _ pt pol v h1, Obs_ALU_zero _ pt pol v h2, Obs_ALU_zero _ pt pol v h3,
+    Obs_ALU_zero _ pt pol v h4, Obs_ALU_zero _ pt pol v h5⟩
+
+/-- pure BH, unpolarised beam (helicity 0), longitudinal target: the cross section does not depend on
+    the sign of the target polarisation, so the target single-spin asymmetry `_TSA` is zero — BM10 family -/
+theorem pure_BH_TSA_zero (c : Consts) (m : CFFs) (pt : Pt) (h0 : pt.in1polarization = 0) (pol : ℝ) (w : Bool) (v : ℝ) :
+    (Obs.TSA (fun p q => XS_BM10ex c (zeroCFFs m) p 1 q w) pt pol = some v → v = 0) ∧
+    (Obs.TSA (fun p q => XS_BM10 c (zeroCFFs m) p 1 q w) pt pol = some v → v = 0) ∧
+    (Obs.TSA (fun p q => XS_BM10tw2 c (zeroCFFs m) p 1 q w) pt pol = some v → v = 0) := by
+  have hflip : flipPol pt = pt := by
+    cases pt; simp only [flipPol] at *; simp_all
+  -- the LP Bethe–Heitler coefficients are odd in the helicity, hence zero at helicity 0
+  have hz : ∀ f : Pt → ℝ, (f (flipPol pt) = -f pt) → f pt = 0 := by
+    intro f hf; rw [hflip] at hf; linarith
+  have c0 := hz (fun p => BM10ex.cBH0LP c (zeroCFFs m) p) (BM10ex_cBH0LP_flipPol c (zeroCFFs m) pt)
+  have c1 := hz (fun p => BM10ex.cBH1LP c (zeroCFFs m) p) (BM10ex_cBH1LP_flipPol c (zeroCFFs m) pt)
+  have key : ∀ q : ℝ, XS_BM10ex c (zeroCFFs m) pt 1 q w = XS_BM10ex c (zeroCFFs m) pt 1 pol w ∧
+      XS_BM10 c (zeroCFFs m) pt 1 q w = XS_BM10 c (zeroCFFs m) pt 1 pol w ∧
+      XS_BM10tw2 c (zeroCFFs m) pt 1 q w = XS_BM10tw2 c (zeroCFFs m) pt 1 pol w := by
+    intro q
+    refine ⟨?_, ?_, ?_⟩ <;>
+      (simp only [XS_BM10ex, XS_BM10, XS_BM10tw2]; xs_unfold
+       simp only [BM10ex.TBH2LP, c0, c1, zero_mul, add_zero, mul_zero])
+  exact ⟨Obs_TSA_zero _ pt pol v (key (-pol)).1, Obs_TSA_zero _ pt pol v (key (-pol)).2.1,
+    Obs_TSA_zero _ pt pol v (key (-pol)).2.2⟩
 
 end Gep.R.C07
